@@ -42,6 +42,8 @@ fn disc_list(name: &str) -> Option<Vec<TargetSpec>> {
         "dup" => vec![t("a", "10.1.2.3:25565"), t("a", "10.1.2.3:25565")],
         "three" => vec![t("p0", "255.255.255.255:0"), t("p1", "[::ffff:1.2.3.4]:1"), t("", "192.0.2.200:25566").with_meta("", "")],
         "same-addr-other-id" => vec![t("x", "10.9.9.9:25565"), t("y", "10.9.9.9:25566"), t("z", "10.9.9.10:25565")],
+        // one identifier, three addresses (what a DNS name with several records looks like to the router)
+        "same-id-other-addr" => vec![t("svc", "10.8.8.1:25565"), t("svc", "10.8.8.2:25565").with_meta("n", "2"), t("svc", "[2001:db8::8]:25565")],
         "err" => return None,
         // a large fleet: 3 000 servers (whatever a router does in blocks or with a ceiling shows past the first 1 024)
         "fleet" => (0..3_000).map(|i| t(&format!("gs-{i}"), &format!("10.{}.{}.{}:{}", 100 + i / 62_500, (i / 250) % 250, i % 250 + 1, 25_000 + i % 1_000)).with_meta("n", &i.to_string())).collect(),
@@ -320,7 +322,7 @@ fn judge(s: &Spec, obs: &Obs) -> Vec<(String, String)> {
 
 fn specs(thorough: bool) -> Vec<Spec> {
     let mut v = vec![];
-    let discs = ["empty", "v4", "v6", "v4+v6", "dup", "three", "same-addr-other-id", "err"];
+    let discs = ["empty", "v4", "v6", "v4+v6", "dup", "three", "same-addr-other-id", "same-id-other-addr", "err"];
     let filters = ["identity", "keep-1", "keep-0-2", "reverse", "empty", "foreign", "err"];
     let strats = ["pick-0", "pick-1", "pick-2", "none", "foreign", "err"];
     let lats: Vec<[u64; 3]> = if thorough {
@@ -364,7 +366,7 @@ fn specs(thorough: bool) -> Vec<Spec> {
     }
     // a returning player: Transfer intent with a valid cookie that records where the player was sent last
     // time - one of the targets on offer now, or one that no longer exists
-    for d in ["v4+v6", "three", "same-addr-other-id", "dup", "v4"] {
+    for d in ["v4+v6", "three", "same-addr-other-id", "same-id-other-addr", "dup", "v4"] {
         let ids: Vec<String> = disc_list(d).unwrap_or_default().iter().map(|t| t.id.clone()).chain(["gone".to_string()]).collect();
         for tid in ids {
             for f in ["identity", "reverse", "keep-1", "empty"] {
